@@ -133,9 +133,10 @@ BUDGET = {'quick': dict(pair=6_000_000, total=420_000_000), 'thorough': dict(pai
 
 def correspondence(ctx):
     rng = ctx.rng
-    budget = BUDGET['quick' if ctx.quick else 'thorough']
+    budget = dict(BUDGET['quick' if ctx.quick else 'thorough'])
+    budget['total'] = G.scale(ctx, budget['total'])
     pairs, spent = [], 0
-    imgs = c05_images(ctx, rng)
+    imgs = G.thin(ctx, c05_images(ctx, rng), lambda i: (i.fmt, '/'.join(i.tag.split('/')[:2])))
     # cheap streams first, so that the total model budget is never used up before they are reached
     imgs.sort(key=lambda i: (i.tag.startswith('big/'), len(i.data) > 64 * G.K))
     for img in imgs:
@@ -212,9 +213,12 @@ def presentations_for(ctx, img, tag, sizes, thorough_all):
     rng = ctx.rng
     out = [('bytes', {})]
     hostile = img.tag.startswith(('hostile/', 'repeat/', 'sweep/', 'seed'))
-    for c in G.ctor_variants(img.fmt)[1:]:
-        if thorough_all or hostile or rng.random() < 0.3:
-            out.append(('bytes', c))
+    variants = G.ctor_variants(img.fmt)[1:]
+    if thorough_all:
+        out += [('bytes', c) for c in variants]
+    elif hostile or rng.random() < 0.3:
+        # the other constructor argument combinations and the user subclasses: tracing always, one subclass kind
+        out += [('bytes', variants[0]), ('bytes', rng.choice(variants[1:]))][:2 if hostile else 1]
     if thorough_all or tag in ('one', 'fixed65536', 'seed') or rng.random() < 0.1:
         f = rng.choice(G.FEEDS[1:])
         out.append((f, rng.choice(G.ctor_variants(img.fmt))))
@@ -254,6 +258,7 @@ def check_image(ctx, img, fam, fails, thorough_all=False):
             if ctor:
                 case['ctor'] = ctor
             case['after_error'] = 'continue' if keep else 'stop'
+            getattr(ctx, '_c05_clock', G.Clock(ctx)).failed()
             fails.append(Failure(case, {
                 'kind': 'retained-bytes-exceed-the-bound',
                 'what': '%s(%s) inspector holds %d bytes (context_info) after %d of %d stream bytes%s; the bound is %d'
@@ -305,7 +310,11 @@ def field_sweep(ctx, rng, fails, full):
             clean = base.stream(None, SCREEN_TAIL)
             clean_peak = {tag: peak_of(fmt, clean, sz)[0] for tag, sz in shapes(len(clean))[:2]}
             flagged, plain = [], []
-            for field in base.fields(structured_everywhere=full or not ctx.quick):
+            fields = list(base.fields(structured_everywhere=(full or not ctx.quick) and not G.ambient(ctx)))
+            fields = G.thin(ctx, fields, lambda f: (f[0], f[1] // 64))
+            for field in fields:
+                if getattr(ctx, '_c05_clock', None) and ctx._c05_clock.expired():
+                    return
                 data = base.stream(field, SCREEN_TAIL)
                 hit = False
                 for tag, sz in shapes(len(data))[:2]:
@@ -335,7 +344,7 @@ def unstructured_big(ctx, rng, fails, full):
     """the property's own words: pure text and random data x one giant chunk.  Streams of 2 - 4 MiB of text,
     random bytes and constant fill that carry no structure at all, to EVERY inspector class, as one giant chunk,
     as 3 bytes then the rest, in 2 MiB reads, in 64 KiB reads and as a giant chunk after a dribble"""
-    sizes = [(2 << 20) + 4097] + ([4 << 20] if (full or not ctx.quick) else [])
+    sizes = [(2 << 20) + 4097] + ([4 << 20] if ((full or not ctx.quick) and not G.ambient(ctx)) else [])
     for n in sizes:
         line = G.rand_text(rng, 71) + b'\n'
         streams = [('text', (line * (n // len(line) + 1))[:n]), ('random', rng.randbytes(n)),
@@ -375,6 +384,8 @@ def sparse_bound(ctx, rng, fails):
 def search(ctx, seeds, full=False):
     rng = ctx.rng
     fails = []
+    clock = G.Clock(ctx)
+    ctx._c05_clock = clock
     for s in [s for s in seeds if s.get('kind') == 'insp' and 'content' in s][:40]:
         data = G.decode_content(s['content'])
         img = G.Img(s['fmt'], data, [64, 512, G.H, 256 * G.K], 'seed: ' + s.get('tag', ''))
@@ -393,7 +404,9 @@ def search(ctx, seeds, full=False):
         return fails
     rounds = (2 if full else 1) if ctx.quick else (5 if full else 4)
     for _ in range(rounds):
-        for img in c05_images(ctx, rng, for_search=True):
+        for img in G.thin(ctx, c05_images(ctx, rng, for_search=True), lambda i: (i.fmt, '/'.join(i.tag.split('/')[:2]))):
+            if clock.expired():
+                return fails
             ctx.count('search/' + '/'.join(img.tag.split('/')[:2]))
             check_image(ctx, img, c05_family(img, rng, ctx.quick, False), fails)
             # every header again, followed by more data than the bound (what an unclamped length would swallow)
